@@ -50,9 +50,8 @@ func VerifC14_Order() {
 		}
 	}
 	route := NewRoute(cr, nil)
-	if vfTier() > 0 && vfBool("moreWorkers") {
-		vfSetGOMAXPROCS(6) // three ingestion workers
-	}
+	// (two ingestion workers, what GOMAXPROCS <= 5 gives; a third worker multiplies the
+	// schedules beyond what a thorough run can finish)
 	d := hDispatcher14(route)
 
 	n := 2
